@@ -12,7 +12,7 @@ case = [mode, drv, a, b, c, seed]; see harness/rt/src/bin/c03.rs.
 """
 import random
 
-MODES = {1: "stress", 2: "window", 3: "external", 4: "executor", 5: "hostloop", 6: "cq-burst"}
+MODES = {1: "stress", 2: "window", 3: "external", 4: "executor", 5: "hostloop", 6: "cq-burst", 7: "wake-in-poll"}
 SOURCES = {0: "same-thread-after-flush", 1: "cross-thread", 2: "timer", 3: "io", 4: "same-thread-before-flush",
            5: "own-waker-after-flush"}
 THOROUGH_SCALE = 4
@@ -32,7 +32,10 @@ def gen_case(rng, big):
         cap = rng.choice([1, 2, 2, 4, 8])
         burst = rng.choice([2 * cap + 2, 3 * cap + 1, 4 * cap + 4])
         return [6, drv, cap, burst, rng.choice([0, 1, 1]), seed]
-    r = (r - 0.30) / 0.70
+    if r < 0.36:
+        # a cross-thread wake lands while the task is being polled because of an earlier cross-thread wake
+        return [7, drv, rng.choice([3, 6, 12]), rng.choice([1, 2, 64]), 0, seed]
+    r = (r - 0.36) / 0.64
     if r < 0.30:
         k = rng.choice([1, 2, 4, 8])
         rounds = rng.choice([5, 10, 20, 40]) * (THOROUGH_SCALE if big else 1)
